@@ -377,6 +377,96 @@ fn answer(a: &[&str]) -> String {
             if !buf.is_empty() { return format!("BAD {}_bytes_left", buf.len()); }
             "OK".into()
         }
+        // io_fail ds <codec> <default|nochange> <k> | io_fail pdu <k> | io_fail read <k> <read sizes,...>
+        //   the same operations as in the C34 case over a writer / transport whose k-th call fails (k = 0: never):
+        //   -> "ERR" (the operation reported an error) | "OK" (it reported success) ; the caller knows whether call k was reached
+        "io_fail" => {
+            struct FailW { n: usize, k: usize, failed: bool, out: Vec<u8> }
+            impl std::io::Write for FailW {
+                fn write(&mut self, buf: &[u8]) -> std::io::Result<usize> {
+                    self.n += 1;
+                    if self.k != 0 && self.n == self.k { self.failed = true; return Err(std::io::Error::new(std::io::ErrorKind::Other, "injected")); }
+                    self.out.extend_from_slice(buf); Ok(buf.len())
+                }
+                fn flush(&mut self) -> std::io::Result<()> { Ok(()) }
+            }
+            match a[1] {
+                "ds" => {
+                    use dicom_core::header::{DataElementHeader, Length};
+                    use dicom_core::VR;
+                    use dicom_parser::dataset::write::{DataSetWriter, DataSetWriterOptions, ExplicitLengthSqItemStrategy};
+                    use dicom_parser::dataset::DataToken;
+                    let nochange = a[3] == "nochange";
+                    let k: usize = a[4].parse().unwrap();
+                    let el = if a[2] == "ile" { 8 + 2 } else { 8 + 2 };
+                    let undef = 0xFFFF_FFFFu32;
+                    let toks = vec![
+                        DataToken::SequenceStart { tag: Tag(0x0008, 0x1115), len: Length(if nochange { 8 + el } else { undef }) },
+                        DataToken::ItemStart { len: Length(if nochange { el } else { undef }) },
+                        DataToken::ElementHeader(DataElementHeader::new(Tag(0x0028, 0x0010), VR::US, Length(0))), DataToken::PrimitiveValue(PrimitiveValue::U16([7u16].into_iter().collect())),
+                        DataToken::ItemEnd, DataToken::SequenceEnd,
+                        DataToken::ElementHeader(DataElementHeader::new(Tag(0x0010, 0x0010), VR::PN, Length(0))), DataToken::PrimitiveValue(PrimitiveValue::Str("A^B".into())),
+                        DataToken::PixelSequenceStart, DataToken::ItemStart { len: Length(0) }, DataToken::ItemEnd,
+                        DataToken::ItemStart { len: Length(3) }, DataToken::ItemValue(vec![1, 2, 3]), DataToken::ItemEnd, DataToken::SequenceEnd,
+                    ];
+                    let opts = DataSetWriterOptions::default().explicit_length_sq_item_strategy(if nochange { ExplicitLengthSqItemStrategy::NoChange } else { ExplicitLengthSqItemStrategy::SetUndefined });
+                    let mut w = FailW { n: 0, k, failed: false, out: vec![] };
+                    let mut result = "OK";
+                    macro_rules! go { ($enc:expr) => {{
+                        let mut dw = DataSetWriter::new_with_options(&mut w, dicom_encoding::encode::EncoderFor::new($enc), opts);
+                        for t in toks { if dw.write(t).is_err() { result = "ERR"; break; } }
+                    }}}
+                    match a[2] {
+                        "ele" => go!(dicom_encoding::encode::explicit_le::ExplicitVRLittleEndianEncoder::default()),
+                        "ile" => go!(dicom_encoding::encode::implicit_le::ImplicitVRLittleEndianEncoder::default()),
+                        _ => go!(dicom_encoding::encode::explicit_be::ExplicitVRBigEndianEncoder::default()),
+                    };
+                    format!("{} failed={} calls={}", result, w.failed, w.n)
+                }
+                "pdu" => {
+                    use dicom_ul::pdu::{write_pdu, AssociationRQ, Pdu, PresentationContextProposed, RequestorRoles, UserVariableItem};
+                    let k: usize = a[2].parse().unwrap();
+                    let pdu = Pdu::AssociationRQ(AssociationRQ {
+                        protocol_version: 1, calling_ae_title: "CALLING".into(), called_ae_title: "CALLED-AE".into(), application_context_name: "1.2.840.10008.3.1.1.1".into(),
+                        presentation_contexts: vec![PresentationContextProposed { id: 1, abstract_syntax: "1.2.3".into(), transfer_syntaxes: vec!["1.2.840.10008.1.2".into()] }],
+                        user_variables: vec![UserVariableItem::MaxLength(16384), UserVariableItem::ImplementationClassUID("1.2".into()),
+                                             UserVariableItem::ScuScpRoleSelectionSubItem("1.2".into(), RequestorRoles { scu: true, scp: false }), UserVariableItem::ImplementationVersionName("V".into())],
+                    });
+                    let mut w = FailW { n: 0, k, failed: false, out: vec![] };
+                    let r = write_pdu(&mut w, &pdu);
+                    format!("{} failed={} calls={}", if r.is_ok() { "OK" } else { "ERR" }, w.failed, w.n)
+                }
+                _ => {
+                    use dicom_ul::pdu::{write_pdu, PDataValue, PDataValueType, Pdu};
+                    struct FailR { data: Vec<u8>, at: usize, sizes: Vec<usize>, n: usize, k: usize, failed: bool }
+                    impl std::io::Read for FailR {
+                        fn read(&mut self, buf: &mut [u8]) -> std::io::Result<usize> {
+                            self.n += 1;
+                            if self.k != 0 && self.n == self.k { self.failed = true; return Err(std::io::Error::new(std::io::ErrorKind::Other, "injected")); }
+                            let left = self.data.len() - self.at;
+                            let want = if self.n - 1 < self.sizes.len() { self.sizes[self.n - 1] } else { left };
+                            let m = want.min(left).min(buf.len());
+                            buf[..m].copy_from_slice(&self.data[self.at..self.at + m]); self.at += m; Ok(m)
+                        }
+                    }
+                    let k: usize = a[2].parse().unwrap();
+                    let sizes: Vec<usize> = if a.len() > 3 && a[3] != "-" { a[3].split(',').map(|x| x.parse().unwrap()).collect() } else { vec![] };
+                    let mut stream = Vec::new();
+                    let _ = write_pdu(&mut stream, &Pdu::PData { data: vec![PDataValue { presentation_context_id: 1, value_type: PDataValueType::Command, is_last: true, data: vec![9] }] });
+                    let _ = write_pdu(&mut stream, &Pdu::ReleaseRQ);
+                    let mut rd = FailR { data: stream, at: 0, sizes, n: 0, k, failed: false };
+                    let mut buf = bytes::BytesMut::new();
+                    let mut out = Vec::new();
+                    for _ in 0..2 {
+                        let before = rd.failed;
+                        let r = dicom_ul::association::read_pdu_from_wire(&mut rd, &mut buf, 16_378, true);
+                        out.push(format!("{}{}", if r.is_ok() { "OK" } else { "ERR" }, if rd.failed && !before { "*" } else { "" }));
+                        if r.is_err() { break; }
+                    }
+                    format!("{} failed={}", out.join(","), rd.failed)
+                }
+            }
+        }
         // pdu_big <L>: write an A-ASSOCIATE-RQ holding one unknown user sub-item with L content bytes, then read the bytes back
         "pdu_big" => {
             use dicom_ul::pdu::{read_pdu, write_pdu, AssociationRQ, Pdu, PresentationContextProposed, UserVariableItem};
